@@ -37,7 +37,7 @@ type recorder struct {
 	mu   sync.Mutex
 	f    *os.File
 	cur  string
-	hold bool    // verdict events of the running case are kept back until the case is known to be untainted
+	hold bool // verdict events of the running case are kept back until the case is known to be untainted
 	held []Event
 }
 
@@ -119,7 +119,9 @@ func (r *recorder) Done(sp *Spec, sample any) {
 	}
 	r.verdict(Event{T: "done", Case: sp.ID, Key: sp.Key(), Sample: sb})
 }
-func (r *recorder) Exit(reason string, next int) { r.emit(Event{T: "exit", Reason: reason, Case: next}) }
+func (r *recorder) Exit(reason string, next int) {
+	r.emit(Event{T: "exit", Reason: reason, Case: next})
+}
 
 func readEvents(path string, from int64) (evs []Event, off int64) {
 	f, err := os.Open(path)
